@@ -143,7 +143,7 @@ CLAIMED = {
              "bytes = Python codec bytes; decoder = canonical decoder on every bit string; round trip; carrier is the least standard width >= n; "
              "sign extension = two's complement for every 1<=n<=c<=64; enum width minimal. Tie: schemas over every type constructor generated with "
              "fcp_cpp, compiled with g++ -std=c++17 (ASan+UBSan) with a generic JSON driver, encoder bytes vs model, decoder vs value, plus one schema "
-             "with every width 1..64 at its boundary values and the carrier/enum-width functions exhaustively on 1..64 / around powers of two.",
+             "with every width 1..64 and enum maxima up to 2^63 at their boundary values and the carrier/enum-width functions exhaustively on 1..64 / around powers of two.",
         note="'compiles as C++17' is decided by g++ on the sampled schemas, not by a theorem; services (rpc) only compile-checked; values travel "
              "as JSON (no infinities/NaN); decode of truncated input is outside the property and not modelled.",
         technique="Lean 4 proof (refinement of the generated codec to the canonical wire format) + compiled-code differential check",
@@ -157,7 +157,8 @@ CLAIMED = {
              "kind, enum boundaries, every width 1..64).",
         note="The encoder equality became a full theorem after the repair of the whole-byte run-time encoder (known_findings.json, fixed: "
              "dynamic-encode-not-bit-packed); the pre-repair behaviour is kept as Cpp.oldDynEnc with its counterexample. Enumerators named vs "
-             "numbered handled in the JSON glue; values travel as JSON (no NaN/inf).",
+             "numbered handled in the JSON glue; values travel as JSON (no NaN/inf). Recorded finding enumerator-beyond-i32: enumerators >= 2^31 "
+             "do not reach the run-time codec intact (i32 in reflection.fcp, C12); such enums are kept out of the C13 batches and shown on a witness.",
         technique="Lean 4 proof (decoder and encoder equality with the generated codec) + compiled-code differential check",
         ref="DESIGN.md section 8, C13"),
     "C18": dict(
@@ -165,7 +166,7 @@ CLAIMED = {
              "(bus padded, id, number of canonical bytes, bytes padded); decode(encode) = (name, value) for distinct names and (id, bus) keys; "
              "unmatched (id, bus) -> unknown; static = run-time for decoding. Tie: compiled static and run-time CAN wrappers (ASan+UBSan) vs the "
              "Lean frame model on encodes, decodes of matching frames and of frames with altered id / bus / bus prefix.",
-        note="bindings without a bus are outside the property; altered frames that match another binding are decoded only when their data is an encoding of a value of that binding (enumerators, finite floats).",
+        note="bindings without a bus are outside the property; altered frames that match another binding are decoded only when their data is an encoding of a value of that binding (enumerators, finite floats). Recorded finding enumerator-beyond-i32 (see C12/C13) shown on its witness.",
         technique="Lean 4 proof (frame model: lookup + padding lemmas + codec round trip) + compiled-code differential check",
         ref="DESIGN.md section 8, C18"),
     "C12": dict(
